@@ -142,6 +142,11 @@ func access(p any, label string, write bool) {
 	if len(t.vc) <= t.id {
 		t.tick()
 	}
+	if write {
+		s.x.Writes++
+	} else {
+		s.x.Reads++
+	}
 	l := s.locs[p]
 	if l == nil {
 		l = &locState{wT: -1, reads: map[int]uint32{}}
@@ -214,6 +219,8 @@ type Execution struct {
 	Trace     []string // only when Options.KeepTrace
 	Preempt   int
 	Races     []string // labels of shared state accessed without happens-before ordering
+	Writes    int      // instrumented write events
+	Reads     int      // instrumented read events
 	Pruned    bool     // abandoned because an equivalent state had been explored with at least the same budget
 }
 
